@@ -459,3 +459,347 @@ Proof.
     rewrite H3, N.eqb_refl. reflexivity.
 Qed.
 End PathRoundtrip.
+
+(** * every value produced from a canonical message is representable *)
+Lemma map_base_const {C} (pr : ifmeta -> C) (none : C) l :
+  (forall x, pr (base x) = none) -> map pr (map base l) = repeat none (length l).
+Proof. intros H. induction l as [|a l IH]; [reflexivity|]. cbn [map length repeat]. rewrite H, IH. reflexivity. Qed.
+
+Lemma skipn_repeat {C} (c : C) k n : skipn k (repeat c n) = repeat c (n - k).
+Proof. revert k. induction n as [|n IH]; intros [|k]; cbn [repeat skipn Nat.sub]; try reflexivity. apply IH. Qed.
+
+Lemma evens_repeat {C} (c : C) n : evens (repeat c n) = repeat c ((n + 1) / 2).
+Proof.
+  assert (forall k, evens (repeat c (2 * k)) = repeat c k /\ evens (repeat c (S (2 * k))) = repeat c (S k)) as H.
+  { induction k as [|k [IH1 IH2]]; [split; reflexivity|].
+    replace (2 * S k)%nat with (S (S (2 * k))) by lia. cbn [repeat]. rewrite !evens_cons2.
+    change (c :: c :: repeat c (2 * k)) with (repeat c (S (S (2 * k)))).
+    split; [cbn [repeat] in *; f_equal; exact IH1|cbn [repeat] in *; f_equal; exact IH2]. }
+  destruct (Nat.Even_or_Odd n) as [[k ->]|[k ->]].
+  - rewrite (proj1 (H k)). f_equal. lia.
+  - replace (2 * k + 1)%nat with (S (2 * k)) by lia. rewrite (proj2 (H k)). f_equal. lia.
+Qed.
+
+Lemma odds_repeat {C} (c : C) n : odds (repeat c n) = repeat c (n / 2).
+Proof. destruct n as [|n]; [reflexivity|]. cbn [repeat odds]. rewrite evens_repeat. f_equal. lia. Qed.
+
+Lemma length_evens {A} (l : list A) : length (evens l) = ((length l + 1) / 2)%nat.
+Proof.
+  induction l as [|a|a b l IH] using list_ind2; [reflexivity|reflexivity|].
+  rewrite evens_cons2. cbn [length]. rewrite IH. lia.
+Qed.
+
+Lemma length_zip_set {A B} (f : A -> B -> A) l vs : length (zip_set f l vs) = length l.
+Proof. revert vs. induction l as [|a l IH]; intros [|v vs]; cbn [zip_set length]; try reflexivity. rewrite IH. reflexivity. Qed.
+Lemma length_set_even {A B} (f : A -> B -> A) l vs : length (set_even f l vs) = length l.
+Proof.
+  revert vs. induction l as [|a|a b l IH] using list_ind2; intros [|v vs]; cbn [set_even length]; try reflexivity.
+  rewrite IH. reflexivity.
+Qed.
+Lemma length_set_odd {A B} (f : A -> B -> A) l vs : length (set_odd f l vs) = length l.
+Proof. destruct l as [|a l]; [reflexivity|]. cbn [set_odd length]. rewrite length_set_even. reflexivity. Qed.
+
+Lemma length_rebuild l lat bw ge lt ih : length (rebuild l lat bw ge lt ih) = length l.
+Proof.
+  unfold rebuild. cbv zeta.
+  repeat match goal with |- context [if ?c then _ else _] => destruct c end;
+    rewrite ?length_set_odd, ?length_set_even, ?length_zip_set, ?map_length; reflexivity.
+Qed.
+
+(** the six projections of the rebuilt list, for ARBITRARY vectors *)
+Lemma rebuild_projections l lat bw ge lt ih :
+  let n := length l in
+  let m := rebuild l lat bw ge lt ih in
+  map im_ia m = map im_ia l /\ map im_id m = map im_id l
+  /\ map im_lat m = (if Nat.eqb (length lat) (n - 1)
+                     then map latency_from_rpc (firstn n lat) ++ repeat None (n - length lat) else repeat None n)
+  /\ map im_bw m = (if Nat.eqb (length bw) (n - 1)
+                    then map (fun b => if 0 <? b then Some b else None) (firstn n bw) ++ repeat None (n - length bw)
+                    else repeat None n)
+  /\ map im_geo m = (if Nat.eqb (length ge) n
+                     then map geo_from_rpc (firstn n ge) ++ repeat None (n - length ge) else repeat None n)
+  /\ evens (map im_link m) = (if Nat.eqb (length lt) (n / 2)
+                              then map (fun t => Some (LEgress (linktype_of_i32 t))) (firstn ((n + 1) / 2) lt)
+                                   ++ repeat None ((n + 1) / 2 - length lt)
+                              else repeat None ((n + 1) / 2))
+  /\ odds (map im_link m) = (if Nat.eqb (length ih) (n / 2 - 1)
+                             then map (fun c => Some (LIngress c)) (firstn (n / 2) ih) ++ repeat None (n / 2 - length ih)
+                             else repeat None (n / 2)).
+Proof.
+  intros n m. unfold m, rebuild. cbv zeta. fold n.
+  set (m1 := if Nat.eqb (length lat) (n - 1) then zip_set set_lat (map base l) lat else map base l).
+  set (m2 := if Nat.eqb (length bw) (n - 1) then zip_set set_bw m1 bw else m1).
+  set (m3 := if Nat.eqb (length ge) n then zip_set set_geo m2 ge else m2).
+  set (m4 := if Nat.eqb (length lt) (n / 2) then set_even set_egress m3 lt else m3).
+  assert (forall {C} (pr : ifmeta -> C), (forall a v, pr (set_lat a v) = pr a) -> map pr m1 = map pr (map base l)) as P1
+    by (intros C pr P; unfold m1; destruct (Nat.eqb (length lat) (n - 1)); [apply map_zip_set_pres, P|reflexivity]).
+  assert (forall {C} (pr : ifmeta -> C), (forall a v, pr (set_bw a v) = pr a) -> map pr m2 = map pr m1) as P2
+    by (intros C pr P; unfold m2; destruct (Nat.eqb (length bw) (n - 1)); [apply map_zip_set_pres, P|reflexivity]).
+  assert (forall {C} (pr : ifmeta -> C), (forall a v, pr (set_geo a v) = pr a) -> map pr m3 = map pr m2) as P3
+    by (intros C pr P; unfold m3; destruct (Nat.eqb (length ge) n); [apply map_zip_set_pres, P|reflexivity]).
+  assert (forall {C} (pr : ifmeta -> C), (forall a v, pr (set_egress a v) = pr a) -> map pr m4 = map pr m3) as P4
+    by (intros C pr P; unfold m4; destruct (Nat.eqb (length lt) (n / 2)); [apply map_set_even_pres, P|reflexivity]).
+  assert (forall {C} (pr : ifmeta -> C), (forall a v, pr (set_ingress a v) = pr a) ->
+            map pr (if Nat.eqb (length ih) (n / 2 - 1) then set_odd set_ingress m4 ih else m4) = map pr m4) as P5
+    by (intros C pr P; destruct (Nat.eqb (length ih) (n / 2 - 1)); [apply map_set_odd_pres, P|reflexivity]).
+  assert (length m1 = n) as L1 by (unfold m1; destruct (Nat.eqb (length lat) (n - 1)); rewrite ?length_zip_set, map_length; reflexivity).
+  assert (length m2 = n) as L2 by (unfold m2; destruct (Nat.eqb (length bw) (n - 1)); rewrite ?length_zip_set; exact L1).
+  assert (length m3 = n) as L3 by (unfold m3; destruct (Nat.eqb (length ge) n); rewrite ?length_zip_set; exact L2).
+  assert (length m4 = n) as L4 by (unfold m4; destruct (Nat.eqb (length lt) (n / 2)); rewrite ?length_set_even; exact L3).
+  refine (conj _ (conj _ (conj _ (conj _ (conj _ (conj _ _)))))).
+  - rewrite P5, P4, P3, P2, P1 by reflexivity. rewrite map_map. reflexivity.
+  - rewrite P5, P4, P3, P2, P1 by reflexivity. rewrite map_map. reflexivity.
+  - rewrite P5, P4, P3, P2 by reflexivity. unfold m1. destruct (Nat.eqb (length lat) (n - 1)).
+    + rewrite (map_zip_set_set im_lat set_lat latency_from_rpc) by reflexivity.
+      rewrite map_length, (map_base_const im_lat None) by reflexivity. rewrite skipn_repeat. reflexivity.
+    + apply map_base_const. reflexivity.
+  - rewrite P5, P4, P3 by reflexivity. unfold m2. destruct (Nat.eqb (length bw) (n - 1)).
+    + rewrite (map_zip_set_set im_bw set_bw (fun b => if 0 <? b then Some b else None)) by reflexivity.
+      rewrite L1, P1, (map_base_const im_bw None) by reflexivity. rewrite skipn_repeat. reflexivity.
+    + rewrite P1 by reflexivity. apply map_base_const. reflexivity.
+  - rewrite P5, P4 by reflexivity. unfold m3. destruct (Nat.eqb (length ge) n).
+    + rewrite (map_zip_set_set im_geo set_geo geo_from_rpc) by reflexivity.
+      rewrite L2, P2, P1, (map_base_const im_geo None) by reflexivity. rewrite skipn_repeat. reflexivity.
+    + rewrite P2, P1 by reflexivity. apply map_base_const. reflexivity.
+  - assert (map im_link m3 = repeat None n) as E3
+      by (rewrite P3, P2, P1 by reflexivity; apply map_base_const; reflexivity).
+    assert (evens (map im_link (if Nat.eqb (length ih) (n / 2 - 1) then set_odd set_ingress m4 ih else m4))
+            = evens (map im_link m4)) as -> by (destruct (Nat.eqb (length ih) (n / 2 - 1)); [apply evens_set_odd|reflexivity]).
+    unfold m4. destruct (Nat.eqb (length lt) (n / 2)).
+    + rewrite (evens_set_even im_link set_egress (fun t => Some (LEgress (linktype_of_i32 t)))) by reflexivity.
+      rewrite length_evens, L3, E3, evens_repeat, skipn_repeat. reflexivity.
+    + rewrite E3, evens_repeat. reflexivity.
+  - assert (odds (map im_link m4) = repeat None (n / 2)) as E4.
+    { unfold m4. destruct (Nat.eqb (length lt) (n / 2)); [rewrite odds_set_even|];
+        rewrite P3, P2, P1 by reflexivity; rewrite (map_base_const im_link None) by reflexivity; apply odds_repeat. }
+    destruct (Nat.eqb (length ih) (n / 2 - 1)).
+    + rewrite (odds_set_odd im_link set_ingress (fun c => Some (LIngress c))) by reflexivity.
+      rewrite length_odds, L4, E4, skipn_repeat. reflexivity.
+    + exact E4.
+Qed.
+
+Ltac Zify.zify_post_hook ::= Z.to_euclidean_division_equations.
+
+Lemma latency_from_rpc_repr d : (fst d <= 9223372036854775807)%Z -> lat_repr (latency_from_rpc d) = true.
+Proof.
+  destruct d as [s n]. cbn [fst]. intros Hs. unfold latency_from_rpc, NANOS_PER_SECOND, I64_MAX.
+  destruct (s <? 0)%Z eqn:E0; [reflexivity|].
+  destruct ((n <=? - (1000000000))%Z || (1000000000 <=? n)%Z) eqn:E1.
+  - destruct (Z.of_N 9223372036854775807 <? s + Z.quot n 1000000000)%Z eqn:E2.
+    + cbn. reflexivity.
+    + destruct ((0 <? s + Z.quot n 1000000000)%Z && (Z.rem n 1000000000 <? 0)%Z) eqn:E3.
+      * destruct ((0 <=? s + Z.quot n 1000000000 - 1)%Z && (0 <=? Z.rem n 1000000000 + 1000000000)%Z) eqn:E4; [|reflexivity].
+        cbn [lat_repr]. lia.
+      * destruct ((0 <=? s + Z.quot n 1000000000)%Z && (0 <=? Z.rem n 1000000000)%Z) eqn:E4; [|reflexivity].
+        cbn [lat_repr]. lia.
+  - destruct ((0 <? s)%Z && (n <? 0)%Z) eqn:E3.
+    + destruct ((0 <=? s - 1)%Z && (0 <=? n + 1000000000)%Z) eqn:E4; [|reflexivity]. cbn [lat_repr]. lia.
+    + destruct ((0 <=? s)%Z && (0 <=? n)%Z) eqn:E4; [|reflexivity]. cbn [lat_repr]. lia.
+Qed.
+
+Lemma geo_from_rpc_repr g : match geo_from_rpc g with Some x => geo_repr x | None => true end = true.
+Proof.
+  destruct g as [[la lo] ad]. unfold geo_from_rpc.
+  destruct (f32_is_zero la && f32_is_zero lo && is_nil ad) eqn:E; [reflexivity|].
+  unfold geo_repr. cbn [g_lat g_lon g_addr]. destruct ad as [|c ad]; cbn [is_nil] in *.
+  - rewrite E. reflexivity.
+  - rewrite Bool.andb_false_r. reflexivity.
+Qed.
+
+Lemma forallb_if_repr m :
+  Forall (fun v => v <= 65535) (map im_id m) -> Forall (fun v => lat_repr v = true) (map im_lat m) ->
+  Forall (fun v => match v with Some b => 0 <? b | None => true end = true) (map im_bw m) ->
+  Forall (fun v => match v with Some g => geo_repr g | None => true end = true) (map im_geo m) ->
+  forallb if_repr m = true.
+Proof.
+  induction m as [|a m IH]; intros H1 H2 H3 H4; [reflexivity|]. cbn [map] in *.
+  inversion H1; inversion H2; inversion H3; inversion H4; subst. cbn [forallb]. rewrite IH by assumption.
+  unfold if_repr. rewrite Bool.andb_true_r.
+  repeat (apply Bool.andb_true_iff; split); try assumption. lia.
+Qed.
+
+Lemma Forall_repeat {C} (P : C -> Prop) c n : P c -> Forall P (repeat c n).
+Proof. intros H. induction n; cbn [repeat]; constructor; assumption. Qed.
+
+Lemma Forall_firstn {C} (P : C -> Prop) l n : Forall P l -> Forall P (firstn n l).
+Proof. intros H. revert n. induction H; intros [|n]; cbn [firstn]; constructor; auto. Qed.
+
+Lemma last_map {A C} (pr : A -> C) l d : pr (last l d) = last (map pr l) (pr d).
+Proof. induction l as [|a [|b l] IH]; [reflexivity|reflexivity|]. exact IH. Qed.
+
+Lemma last_repeat {C} (c d : C) n : n <> 0%nat -> last (repeat c n) d = c.
+Proof. induction n as [|[|n] IH]; intros H; [congruence|reflexivity|]. apply IH. discriminate. Qed.
+
+Lemma last_odds_even {A} (l : list A) d : Nat.even (length l) = true -> l <> [] -> last l d = last (odds l) d.
+Proof.
+  induction l as [|a|a b l IH] using list_ind2; intros He Hn; [congruence|discriminate|].
+  rewrite odds_cons2. destruct l as [|c l]; [reflexivity|].
+  change (last (a :: b :: c :: l) d) with (last (c :: l) d). rewrite IH by (auto; discriminate).
+  destruct l as [|e l]; [discriminate|]. rewrite odds_cons2. reflexivity.
+Qed.
+
+Lemma forallb_map {A C} (pr : A -> C) (P : C -> bool) l : forallb (fun x => P (pr x)) l = forallb P (map pr l).
+Proof. induction l as [|a l IH]; [reflexivity|]. cbn [forallb map]. rewrite IH. reflexivity. Qed.
+
+Lemma forallb_repeat {C} (P : C -> bool) c n : P c = true -> forallb P (repeat c n) = true.
+Proof. intros H. induction n; cbn [repeat forallb]; [reflexivity|]. rewrite H. assumption. Qed.
+
+Lemma forallb_firstn {C} (P : C -> bool) l n : forallb P l = true -> forallb P (firstn n l) = true.
+Proof.
+  revert n. induction l as [|a l IH]; intros [|n] H; cbn [firstn forallb] in *; try reflexivity.
+  apply Bool.andb_true_iff in H. destruct H as [-> H]. apply IH, H.
+Qed.
+
+Lemma forallb_app' {C} (P : C -> bool) a b : forallb P a = true -> forallb P b = true -> forallb P (a ++ b) = true.
+Proof. intros H1 H2. rewrite forallb_app, H1, H2. reflexivity. Qed.
+
+Definition eP (o : option linkmeta) : bool := match o with Some (LEgress t) => lt_repr t | _ => false end.
+Definition iP (o : option linkmeta) : bool := match o with Some (LIngress c) => c <=? 4294967295 | _ => false end.
+Definition nP (o : option linkmeta) : bool := match o with None => true | Some _ => false end.
+
+Lemma rebuild_repr l lat bw ge lt ih :
+  length l <> 0%nat -> Nat.even (length l) = true -> Forall (fun x => im_id x <= 65535) l ->
+  forallb (fun d => (fst d <=? 9223372036854775807)%Z) lat = true ->
+  forallb (fun z => lt_repr (linktype_of_i32 z)) lt = true -> forallb (fun c => c <=? 4294967295) ih = true ->
+  ifs_repr (rebuild l lat bw ge lt ih) = true.
+Proof.
+  intros Hn He Hid Hlat Hlt Hih.
+  destruct (rebuild_projections l lat bw ge lt ih) as (Pia & Pid & Pla & Pbw & Pge & Pev & Pod).
+  pose proof (length_rebuild l lat bw ge lt ih) as Lm.
+  set (m := rebuild l lat bw ge lt ih) in *. set (n := length l) in *.
+  assert (2 <= n)%nat as Hn2 by (destruct n as [|[|k]]; [congruence|discriminate|lia]).
+  assert ((n + 1) / 2 = n / 2)%nat as Hhalf.
+  { apply Nat.even_spec in He. destruct He as [k Hk]. rewrite Hk. clear. lia. }
+  unfold ifs_repr. rewrite Lm. fold n.
+  assert (negb (Nat.eqb n 0) = true) as -> by (apply Bool.negb_true_iff, Nat.eqb_neq; exact Hn).
+  rewrite He. cbn [andb].
+  (* every interface is representable *)
+  assert (forallb if_repr m = true) as ->.
+  { apply forallb_if_repr.
+    - rewrite Pid. apply Forall_map. exact Hid.
+    - rewrite Pla. destruct (Nat.eqb (length lat) (n - 1)); [|apply Forall_repeat; reflexivity].
+      apply Forall_app. split; [|apply Forall_repeat; reflexivity].
+      apply Forall_map, Forall_firstn, Forall_forall. intros d Hd. apply latency_from_rpc_repr.
+      rewrite forallb_forall in Hlat. specialize (Hlat d Hd). lia.
+    - rewrite Pbw. destruct (Nat.eqb (length bw) (n - 1)); [|apply Forall_repeat; reflexivity].
+      apply Forall_app. split; [|apply Forall_repeat; reflexivity].
+      apply Forall_map, Forall_firstn, Forall_forall. intros b _. destruct (0 <? b) eqn:E; [exact E|reflexivity].
+    - rewrite Pge. destruct (Nat.eqb (length ge) n); [|apply Forall_repeat; reflexivity].
+      apply Forall_app. split; [|apply Forall_repeat; reflexivity].
+      apply Forall_map, Forall_firstn, Forall_forall. intros g _. apply geo_from_rpc_repr. }
+  cbn [andb].
+  (* the last interface carries no link data *)
+  assert (m <> []) as Hmne by (intros E; rewrite E in Lm; cbn in Lm; lia).
+  assert (match last m (mkIf 0 0 None None None None) with
+          | mkIf _ _ _ la b lk => is_none la && is_none b && is_none lk end = true) as ->.
+  { set (d := mkIf 0 0 None None None None).
+    assert (im_lat (last m d) = None) as E1.
+    { rewrite (last_map im_lat). rewrite Pla. destruct (Nat.eqb (length lat) (n - 1)) eqn:E.
+      - apply Nat.eqb_eq in E. replace (n - length lat)%nat with 1%nat by lia. cbn [repeat]. apply last_last.
+      - apply last_repeat. exact Hn. }
+    assert (im_bw (last m d) = None) as E2.
+    { rewrite (last_map im_bw). rewrite Pbw. destruct (Nat.eqb (length bw) (n - 1)) eqn:E.
+      - apply Nat.eqb_eq in E. replace (n - length bw)%nat with 1%nat by lia. cbn [repeat]. apply last_last.
+      - apply last_repeat. exact Hn. }
+    assert (im_link (last m d) = None) as E3.
+    { rewrite (last_map im_link). rewrite (last_odds_even (map im_link m)); [|rewrite map_length, Lm; exact He|destruct m; [congruence|discriminate]].
+      rewrite Pod. destruct (Nat.eqb (length ih) (n / 2 - 1)) eqn:E.
+      - apply Nat.eqb_eq in E. replace (n / 2 - length ih)%nat with 1%nat by lia. cbn [repeat]. apply last_last.
+      - apply last_repeat. lia. }
+    destruct (last m d) as [? ? ? la b lk]. cbn in E1, E2, E3. subst. reflexivity. }
+  cbn [andb].
+  (* link types: all or none *)
+  assert (all_or_none egress_repr (evens m) = true) as ->.
+  { unfold all_or_none.
+    assert (forall xs, forallb egress_repr xs = forallb eP (map im_link xs)) as Ee by (intros xs; apply (forallb_map im_link eP)).
+    assert (forall xs, forallb no_link xs = forallb nP (map im_link xs)) as En by (intros xs; apply (forallb_map im_link nP)).
+    rewrite Ee, En, <- evens_map, Pev. destruct (Nat.eqb (length lt) (n / 2)) eqn:E.
+    - apply Nat.eqb_eq in E. rewrite Hhalf, E, Nat.sub_diag. cbn [repeat]. rewrite app_nil_r.
+      rewrite <- (forallb_map (fun t => Some (LEgress (linktype_of_i32 t))) eP). cbn [eP].
+      rewrite (forallb_firstn _ lt _ Hlt). reflexivity.
+    - rewrite (forallb_repeat nP None) by reflexivity. apply Bool.orb_true_r. }
+  cbn [andb].
+  (* internal hops: all or none *)
+  unfold all_or_none.
+  assert (forall xs, forallb ingress_repr xs = forallb iP (map im_link xs)) as Ei by (intros xs; apply (forallb_map im_link iP)).
+  assert (forall xs, forallb no_link xs = forallb nP (map im_link xs)) as En by (intros xs; apply (forallb_map im_link nP)).
+  rewrite Ei, En, <- firstn_map, <- odds_map, Pod. destruct (Nat.eqb (length ih) (n / 2 - 1)) eqn:E.
+  - apply Nat.eqb_eq in E. rewrite (firstn_all2 (n := (n / 2)%nat) ih) by lia.
+    rewrite firstn_app, map_length, E, Nat.sub_diag. cbn [firstn]. rewrite app_nil_r.
+    rewrite <- E, <- (map_length (fun c => Some (LIngress c)) ih), firstn_all.
+    rewrite <- (forallb_map (fun c => Some (LIngress c)) iP). cbn [iP]. rewrite Hih. reflexivity.
+  - rewrite (forallb_firstn nP _ _ (forallb_repeat nP None _ eq_refl)). apply Bool.orb_true_r.
+Qed.
+
+Lemma collect_iface_inv ifs metas :
+  collect iface_from_rpc ifs = Ok metas ->
+  length metas = length ifs /\ map base metas = metas /\ Forall (fun x => im_id x <= 65535) metas.
+Proof.
+  revert metas. induction ifs as [|i ifs IH]; intros metas H; cbn [collect] in H.
+  - injection H as <-. repeat split. constructor.
+  - unfold iface_from_rpc at 1 in H. destruct (U16_MAX <? snd i) eqn:E; cbn [obind] in H; [discriminate|].
+    destruct (collect iface_from_rpc ifs) as [ms|e|s]; cbn [obind] in H; try discriminate.
+    injection H as <-. destruct (IH ms eq_refl) as (L & B & F). cbn [length map]. rewrite L, B.
+    refine (conj eq_refl (conj eq_refl _)). constructor; [cbn [im_id]; unfold U16_MAX in E; lia|exact F].
+Qed.
+
+Section PathImage.
+Context {SA : Type}.
+Variable std_parse : bytes -> option bytes.
+Variable sa_parse : bytes -> option SA.
+Variable std_ok : bytes -> bool.
+Hypothesis std_parse_ok : forall raw, std_parse raw = Some [] -> std_ok raw = true.
+
+Lemma path_from_rpc_repr r src dst (p : spath SA) :
+  path_from_rpc std_parse sa_parse r src dst = Ok p -> rpath_canonical r = true ->
+  path_repr std_ok p = true.
+Proof.
+  unfold path_from_rpc, rpath_canonical. intros H Hc.
+  apply Bool.andb_true_iff in Hc. destruct Hc as [Hc Cih].
+  apply Bool.andb_true_iff in Hc. destruct Hc as [Hc Clt].
+  apply Bool.andb_true_iff in Hc. destruct Hc as [Cexp Clat].
+  destruct (is_nil (rp_raw r)) eqn:Eraw.
+  - destruct (ia_is_wildcard src) eqn:Ws; destruct (ia_is_wildcard dst) eqn:Wd; cbn [andb] in H; try discriminate.
+    + destruct (src =? dst); discriminate.
+    + destruct (src =? dst) eqn:E; [|discriminate]. injection H as <-.
+      unfold path_repr. cbn [sp_meta sp_raw sp_src sp_dst sp_hop is_nil is_none]. rewrite N.eqb_refl, Ws. reflexivity.
+    + destruct (src =? dst) eqn:E; [|discriminate]. injection H as <-.
+      unfold path_repr. cbn [sp_meta sp_raw sp_src sp_dst sp_hop is_nil is_none]. rewrite N.eqb_refl, Ws. reflexivity.
+  - destruct (std_parse (rp_raw r)) as [rest|] eqn:Estd; [|discriminate].
+    destruct rest as [|? ?]; cbn [is_nil negb] in H; [|discriminate].
+    destruct (match rp_iface r with
+              | Some (Some a) => match sa_parse a with Some x => Some (Some x) | None => None end
+              | _ => Some None end) as [nh|]; [|discriminate].
+    destruct (Nat.eqb (length (rp_ifs r)) 0 || negb (Nat.even (length (rp_ifs r))))%bool eqn:Ecnt; [discriminate|].
+    destruct (collect iface_from_rpc (rp_ifs r)) as [metas|e|s] eqn:Ecol; cbn [obind] in H; try discriminate.
+    destruct (rp_exp r) as [[secs nn]|]; [|discriminate].
+    destruct (U16_MAX <? rp_mtu r) eqn:Emtu; [discriminate|].
+    injection H as <-.
+    destruct (collect_iface_inv _ _ Ecol) as (Lm & Hb & Hid).
+    apply Bool.orb_false_iff in Ecnt. destruct Ecnt as [E0 Eev]. apply Bool.negb_false_iff in Eev. apply Nat.eqb_neq in E0.
+    unfold path_repr. cbn [sp_meta sp_raw sp_src sp_dst sp_hop pm_exp pm_mtu pm_ifs pm_notes].
+    rewrite Eraw, (std_parse_ok _ Estd). cbn [negb andb].
+    assert ((u64_of_i64 secs <=? 9223372036854775807) = true) as ->.
+    { unfold u64_of_i64. apply Bool.andb_true_iff in Cexp. rewrite Z.mod_small by lia. lia. }
+    assert ((rp_mtu r <=? 65535) = true) as -> by (unfold U16_MAX in Emtu; lia).
+    cbn [andb].
+    match goal with |- context [ifs_repr ?e] =>
+      assert (e = rebuild metas (rp_lat r) (rp_bw r) (rp_geo r) (rp_lt r) (rp_ih r)) as ->
+        by (unfold rebuild; cbv zeta; rewrite Hb, Lm; reflexivity) end.
+    rewrite rebuild_repr; [|rewrite Lm; exact E0|rewrite Lm; exact Eev|exact Hid|exact Clat|exact Clt|exact Cih].
+    rewrite length_rebuild, Lm. cbn [andb].
+    change (fst (Nat.divmod (length (rp_ifs r)) 1 0 1)) with (length (rp_ifs r) / 2)%nat.
+    destruct (Nat.eqb (length (rp_notes r)) (length (rp_ifs r) / 2 + 1)) eqn:En; [exact En|reflexivity].
+Qed.
+End PathImage.
+
+(** a value used as non-vacuity example in [Props] *)
+Definition example_path : spath bytes :=
+  mkPath 281474976710672 281474976710673 [0; 0; 32; 0]
+    (Some (mkPM 1800000000 1400
+       (Some [mkIf 1 1 (Some (mkGeo 1111359488 1091043328 (Some [120]))) (Some (0, 5000)) (Some 100) (Some (LEgress LtDirect));
+              mkIf 2 2 None None None (Some (LIngress 3));
+              mkIf 2 3 None (Some (1, 0)) None (Some (LEgress (LtUnknown 200)));
+              mkIf 3 4 None None None None])
+       (Some ([1; 2], [])) (Some [[97]; []; [98]])))
+    (Some [49; 48]).
